@@ -11,6 +11,8 @@ package localnet
 //	retryA    the last message of A is posted once more with the same client message id
 //	killL     SIGKILL the current leader        (skipped when that would leave fewer than 2 nodes)
 //	killF     SIGKILL the lowest live follower  (ditto)
+//	killL+postA  SIGKILL the leader and post at once, while the followers still believe in the dead leader
+//	          and proxy to it (the window in which a request can be answered without having been committed)
 //	restart   start every dead node again on its data directory
 //	crashall  SIGKILL all nodes, then start all of them again
 //	snapshot  force a raft snapshot on every live node
@@ -400,7 +402,7 @@ func TestVerifC05Net(t *testing.T) {
 	}
 	depth := 2
 	if os.Getenv("VERIF_TIER") == "thorough" {
-		depth = 4
+		depth = 3
 	}
 	if d := os.Getenv("VERIF_DEPTH"); d != "" {
 		depth, _ = strconv.Atoi(d)
@@ -413,7 +415,7 @@ func TestVerifC05Net(t *testing.T) {
 	res := &cnResult{EndStates: map[string]int{}, Depth: depth}
 	sigs := map[string]*cnViol{}
 	base := t.TempDir()
-	seqs := cnSeqs([]string{"postA", "retryA", "killL", "killF", "restart", "snapshot", "crashall"}, depth)
+	seqs := cnSeqs([]string{"postA", "retryA", "killL", "killL+postA", "killF", "restart", "snapshot", "crashall"}, depth)
 	if rp := os.Getenv("VERIF_REPLAY"); rp != "" {
 		b, _ := os.ReadFile(rp)
 		var v cnViol
@@ -569,7 +571,7 @@ func TestVerifC05Net(t *testing.T) {
 						inconclusive("retry not acknowledged")
 						return
 					}
-				case "killL", "killF":
+				case "killL", "killF", "killL+postA":
 					if len(c.liveNodes()) < 3 {
 						continue // keep a majority
 					}
@@ -593,6 +595,16 @@ func TestVerifC05Net(t *testing.T) {
 					}
 					c.kill(victim)
 					res.Kills++
+					if op == "killL+postA" {
+						p := &cnPosted{text: fmt.Sprintf("msg-%d-%d", si, oi), cmid: c.nextCmid()}
+						p.acked, _ = c.post(A, "PRIVMSG #c :"+p.text, p.cmid, 90*time.Second)
+						if !p.acked {
+							inconclusive("POST not acknowledged within 90s after the leader was killed")
+							return
+						}
+						posted = append(posted, p)
+						last = p
+					}
 				case "restart", "crashall":
 					if op == "crashall" {
 						for _, n := range c.liveNodes() {
